@@ -14,6 +14,10 @@ TFWD = uf("data_transform_forward_row", Row, Row)
 TINV = uf("data_transform_inverse_row", Row, Row)
 LJFWD = uf("data_transform_forward_logJ_row", Row, RS)
 LJINV = uf("data_transform_inverse_logJ_row", Row, RS)
+NETFWD = uf("network_bijection_forward_row", Row, Row)        # zuko: dist.transform (x' -> z)
+NETINV = uf("network_bijection_inverse_row", Row, Row)
+NETLJFWD = uf("network_bijection_forward_logdet_row", Row, RS)
+NETLJINV = uf("network_bijection_inverse_logdet_row", Row, RS)
 
 
 def rw(name, f, x, elem):
@@ -55,6 +59,18 @@ def install(reg):
     def z_lp(I, a, k, n):
         I.path.event("zuko.call", "log_prob", I.path.ghost.get("no_grad_depth", 0) > 0)
         return rw("BASELP", BASE_LP, a[1], "real")
+
+    # zuko: the network's bijection dist.transform (x' -> z) and its inverse, each with its log|det|
+    reg.obj_props["ZukoDist.transform"] = lambda I, o, n: Obj("ZukoBijection", {"inverse": B(False)})
+    reg.obj_props["ZukoBijection.inv"] = lambda I, o, n: Obj("ZukoBijection", {"inverse": B(not I.is_true(o.f["inverse"]))})
+
+    @H("ZukoBijection.call_and_ladj")
+    def z_call_and_ladj(I, a, k, n):
+        assumed(I, "zuko: transform.call_and_ladj(x') returns (z, log|det dz/dx'|) row by row; transform.inv is the inverse bijection with the negated log-determinant at the image")
+        inv = I.is_true(a[0].f["inverse"])
+        I.path.event("zuko.call", "inv.call_and_ladj" if inv else "call_and_ladj", I.path.ghost.get("no_grad_depth", 0) > 0)
+        x = a[1]
+        return Tup([rw("NETINV" if inv else "NETFWD", NETINV if inv else NETFWD, x, "row"), rw("NETLJINV" if inv else "NETLJFWD", NETLJINV if inv else NETLJFWD, x, "real")])
 
     # flowjax distribution
     @H("FlowJaxDist.sample")
@@ -361,3 +377,46 @@ class JaxFlowSaveDtype(TorchFlowSaveDtype):
         if not ok and parts:
             tag = f"{tag} (filter used: {parts[0][2]!r})"
         p.prove(z3.BoolVal(ok), f"{self.qual}:C13:all array leaves of the network are stored (filter equinox.is_array: the random permutations between layers are integer arrays), not only the floating-point ones {tag}")
+
+
+class ZukoForward(Contract):
+    """the flow as a map (used as a preconditioning transform): data transform, then the network's bijection"""
+    qual = "flows.torch.flows:ZukoFlow.forward"
+    properties = ("C05", "C04", "C03")
+    which = "forward"
+    doc = ("forward(x) = (N(T(x)), log|det dN/dx'|(T(x)) + log|det dT/dx|(x)); inverse(z) = (T^-1(N^-1(z)), log|det dN^-1/dz|(z) + log|det dT^-1/dx'|(N^-1(z))): "
+           "the two log-Jacobians of the composition are *added*, each evaluated where its map is applied (a flow used for preconditioning hands this log-Jacobian "
+           "to the tempered target)")
+
+    def must_return(self, shape):
+        return True
+
+    def setup(self, I, shape):
+        fl = mk_flow(I, "ZukoFlow")
+        n = z3.Int("n_points")
+        I.path.assume(n >= 1)
+        x = base_arr("x_in", "row", n)
+        return Pre(fl, [x], ghost={"n": n, "x": x})
+
+    def post(self, I, pre, r):
+        p, g = I.path, pre.ghost
+        q = self.qual
+        ok = isinstance(r, Tup) and len(r.items) == 2 and all(isinstance(t, Arr) for t in r.items)
+        p.prove(z3.BoolVal(ok), f"{q}:C05:returns (points, log|det J| per point)")
+        if not ok:
+            return
+        y, lj = r.items
+        i = z3.Int(fresh("row"))
+        inb = z3.And(i >= 0, i < g["n"])
+        xi = g["x"].at(i)
+        if self.which == "forward":
+            p.prove(z3.Implies(inb, y.at(i) == NETFWD(TFWD(xi))), f"{q}:C05:C04:forward applies the data transform, then the network's bijection")
+            p.prove(z3.Implies(inb, lj.at(i) == NETLJFWD(TFWD(xi)) + LJFWD(xi)), f"{q}:C05:C04:C03:log-Jacobian of forward = network log-determinant at T(x) + data-transform log-Jacobian at x (a sum)")
+        else:
+            p.prove(z3.Implies(inb, y.at(i) == TINV(NETINV(xi))), f"{q}:C05:C04:inverse applies the network's inverse bijection, then the inverse data transform")
+            p.prove(z3.Implies(inb, lj.at(i) == NETLJINV(xi) + LJINV(NETINV(xi))), f"{q}:C05:C04:C03:log-Jacobian of inverse = network inverse log-determinant at z + inverse data-transform log-Jacobian at N^-1(z) (a sum, not a difference)")
+
+
+class ZukoInverse(ZukoForward):
+    qual = "flows.torch.flows:ZukoFlow.inverse"
+    which = "inverse"
